@@ -588,6 +588,18 @@ def main(tier, seed, replay=None):
     if cur:
         traces.append({'ev': cur})
     acc, diag, res = validate_traces('TraceKrylov', 'TraceKrylov.cfg', traces, shards=16, timeout=3000, mem='4g')
+    if not replay:
+        from vlib import negative_controls
+        def c_steps(e):
+            if e['op'] == 'end':
+                e['steps'] += 1
+                return True
+        def c_rej(e):
+            if e['op'] == 'iter' and not e['rej'] and not e['happy'] and e['lenOut'] > 1:
+                e['rej'] = True          # a rejected step must keep the basis and not advance the time
+                e['advanced'] = True
+                return True
+        rep.cov['parts']['negative_controls_rejected'] = negative_controls('TraceKrylov', 'TraceKrylov.cfg', traces, [('step count + 1', c_steps), ('rejected step that advanced', c_rej)], timeout=900, mem='4g')
     for t, rj in zip(traces, validate_traces.last_rejects):
         for l, why in rj[:1]:
             e = t['ev'][l - 1]
